@@ -2,34 +2,110 @@
 
 package flags
 
-type declC03a struct {
+// C03 - unconsumed arguments are conserved, in order.
+
+type c03P0 struct {
 	A bool   `short:"a" long:"aa"`
-	B bool   `short:"b"`
-	S string `short:"s" long:"ss"`
+	B string `short:"b" long:"bb"`
+}
+type c03P1 struct {
+	c03P0
+	Pos struct{ X string } `positional-args:"y"`
+}
+type c03P2 struct {
+	c03P0
+	Pos struct {
+		X string
+		R []string
+	} `positional-args:"y"`
+}
+type c03Cmd struct {
+	D   bool `short:"d"`
+	log *[]string
 }
 
-// H_C03_raw: k tokens of arbitrary bytes against the reference classifier.
+func (c *c03Cmd) Execute(a []string) error {
+	*c.log = append([]string{"!"}, a...)
+	return nil
+}
+
+type c03P3 struct {
+	c03P0
+	Cmd c03Cmd `command:"cmd"`
+}
+
+// H_C03_raw: k tokens of arbitrary bytes, four declaration shapes, all eight
+// combinations of PassDoubleDash/IgnoreUnknown/PassAfterNonOption, against
+// the reference parse.
 func H_C03_raw(v *V) {
-	var d declC03a
-	opts := Options(0)
-	if v.Bool() {
-		opts |= PassDoubleDash
-	}
-	p := NewNamedParser("prog", opts)
-	p.AddGroup("Application Options", "", &d)
+	variant := v.Shape("variant")
+	opts := vOptions(v, PassDoubleDash, IgnoreUnknown, PassAfterNonOption)
 	n := v.Shape("ntok")
 	argv := make([]string, n)
 	for i := range argv {
-		argv[i] = v.String(v.Shape("len"))
+		argv[i] = v.String(v.Shape("len" + string(rune('0'+i))))
 	}
-	rest, err := p.ParseArgs(argv)
-	if err == nil {
+	sp := refSpec{flags: []string{"-a", "--aa"}, argopts: []string{"-b", "--bb"}}
+	var p *Parser
+	var a *bool
+	var b *string
+	var pos func() []string
+	var execLog []string
+	switch variant {
+	case 0:
+		o := &c03P0{}
+		p = NewNamedParser("prog", opts)
+		p.AddGroup("Application Options", "", o)
+		a, b = &o.A, &o.B
+		pos = func() []string { return nil }
+	case 1:
+		sp.npos = 1
+		o := &c03P1{}
+		p = NewNamedParser("prog", opts)
+		p.AddGroup("Application Options", "", o)
+		a, b = &o.A, &o.B
+		pos = func() []string { return []string{o.Pos.X} }
+	case 2:
+		sp.npos, sp.rest = 1, true
+		o := &c03P2{}
+		p = NewNamedParser("prog", opts)
+		p.AddGroup("Application Options", "", o)
+		a, b = &o.A, &o.B
+		pos = func() []string { return append([]string{o.Pos.X}, o.Pos.R...) }
+	case 3:
+		sp.cmds = []string{"cmd"}
+		o := &c03P3{}
+		o.Cmd.log = &execLog
+		p = NewNamedParser("prog", opts)
+		p.AddGroup("Application Options", "", o)
+		a, b = &o.A, &o.B
+		pos = func() []string { return nil }
+	}
+	in := append([]string{}, argv...)
+	rest, err := p.ParseArgs(in)
+	ref := refParse(sp, opts, argv)
+	v.Assume(!ref.skip)
+	v.ObserveBool("ok", err == nil)
+	v.Assert((err == nil) == ref.ok, "the parse succeeds exactly when the reference accepts the vector")
+	if err == nil && ref.ok {
 		v.Reach("success")
 		v.ObserveStrs("rest", rest)
-		v.ObserveStr("S", d.S)
+		v.Assert(v.EqStrs(rest, ref.rest), "remaining arguments are exactly the unconsumed tokens in order")
+		want := ref.pos
+		if variant == 1 || variant == 2 {
+			// the first positional is observed as a plain field ("" when unfilled)
+			if len(want) == 0 {
+				want = []string{""}
+			}
+		}
+		v.Assert(v.EqStrs(pos(), want), "positional arguments receive the passed-through tokens first")
+		v.Assert(*a == ref.a, "flag value")
+		v.Assert(v.EqStr(*b, ref.b), "option value")
+		if variant == 3 {
+			v.Assert(v.EqStrs(execLog, append([]string{"!"}, ref.rest...)), "the executed command receives exactly the remaining arguments")
+		}
 	} else {
 		v.Reach("error")
-		v.ObserveStr("err", err.Error())
 	}
 }
 
